@@ -1,12 +1,18 @@
 (* c09 driver.  stdin: one case per line, four sections separated by '|':
      <cfg0> {K <url> <tid> <tident> | W <word> | V <url> <word>}*     initial world (disk, user dict, file dicts)
    | op ; op ; ...                                                    history
-   | k {A | <id>}*   or   f {A | <id>}*                               schedule (k: client-interaction steps, f: instr steps)
+   | k {A | <id>}*   or   f {A | <id>}*   or   b {A | <id>}*          schedule (k: client-interaction steps, f: instr steps,
+                                                                       b: batch case = k, run through its expansion to instr steps)
    | <url>*                                                           urls whose freshness is reported
    ops:  O url lang tid tident version | C url tid tident version | S url | X url | DF d n | DD d | AU w url | AF w url
          | I url k | R | G cfg url*          url: F<d>.<n> | U<n>          lang: p m c x
    stdout: "P" when the schedule is not executable in the model, else
      <publishDiagnostics log, oldest first> # <q|n> # <stale urls>
+   for a `b` schedule a fourth section follows: the verdict of the SHAPES of Model/C09Batch.v on the trace of
+   critical sections - the urls (of the last section) whose last word the shape predicts WRONG; `~url` when the
+   history is outside the class of C09_batch_closed_exact / C09_batch_open_exact for that url; `-` when the
+   schedule does not end quiescent.  The `b` run is the instruction-level dispatcher `run` on `kexpand` of the
+   schedule; it must end in the same system as `krun` (else `? kexpand`).
    a publication is  url=E  or  url=t<tid>.<ident>,<lang>,U<words>,F<words>,i<ident>,L<lcfg>,P<pcfg>,S<scfg>,G<ignored>
    U, F, i are what shows of the two dictionaries of the provenance (the linter's and the one the document
    was parsed with): a word is accepted iff it is in both (Server.observe).
@@ -74,18 +80,38 @@ let () =
             | c :: rest -> init_world (world0 (nat_s c)) rest
             | [] -> world0 O in
           let h = List.filter_map (fun s -> if String.trim s = "" then None else Some (op_of s)) (String.split_on_char ';' hist) in
-          let res = match tokens sched with
-            | "k" :: cs -> model_krun w0 h (List.map (fun c -> if c = "A" then KAdmit else KRun (nat_s c)) cs)
-            | "f" :: cs -> model_run w0 h (List.map (fun c -> if c = "A" then CAdmit else CRun (nat_s c)) cs)
-            | _ -> None in
+          let ks cs = List.map (fun c -> if c = "A" then KAdmit else KRun (nat_s c)) cs in
+          let res, tr = match tokens sched with
+            | "k" :: cs -> model_krun w0 h (ks cs), None
+            | "f" :: cs -> model_run w0 h (List.map (fun c -> if c = "A" then CAdmit else CRun (nat_s c)) cs), None
+            | "b" :: cs ->
+                (match batch_krun w0 h (ks cs), model_krun w0 h (ks cs) with
+                 | Some (y, tr), Some y' -> if y = y' then Some y, Some tr else failwith "kexpand"
+                 | None, None -> None, None
+                 | _ -> failwith "kexpand")
+            | _ -> None, None in
           match res with
           | None -> print_endline "P"
           | Some y ->
               let w = y.y_world in
+              let us = List.map url_of (tokens urls) in
               let log = canon (List.rev_map (fun (u, p) -> (url_s u, pub_s p)) w.s_log) in
-              let stale = List.filter (fun u -> pub_s (lastword w u) <> pub_s (expected w u)) (List.map url_of (tokens urls)) in
-              print_endline (String.trim (String.concat " " (List.map (fun (u, p) -> u ^ "=" ^ p) log)
+              let stale = List.filter (fun u -> pub_s (lastword w u) <> pub_s (expected w u)) us in
+              let shape = match tr with
+                | None -> None
+                | Some tr ->
+                    Some
+                    (if not (quiescentb y) then "-" else
+                     String.concat " " (List.filter_map (fun u ->
+                       let in_class = List.for_all batch_op h &&
+                         (match astate0 (client_after h w0) u with
+                          | Some cd -> sess_ok u cd h && init_okb w0 u cd
+                          | None -> true) in
+                       if not in_class then Some ("~" ^ url_s u)
+                       else if shape_verdict w0 h tr u then Some (url_s u) else None) us)) in
+              let base = String.trim (String.concat " " (List.map (fun (u, p) -> u ^ "=" ^ p) log)
                              ^ " # " ^ (if quiescentb y then "q" else "n")
-                             ^ " # " ^ String.concat " " (List.map url_s stale)))
+                             ^ " # " ^ String.concat " " (List.map url_s stale)) in
+              print_endline (match shape with None -> base | Some sh -> String.trim (base ^ " # " ^ sh))
         with Failure m -> print_endline ("? " ^ m) | Invalid_argument m -> print_endline ("? " ^ m))
     | _ -> print_endline "?")
